@@ -219,6 +219,9 @@ pub fn c03_leaves() -> Vec<String> {
         "-9223372036854775808",
         "-9223372036854775809",
         "1e-400",
+        "5e-324",
+        "2.2250738585072009e-308",
+        "1.7976931348623157e308",
         "true",
         "false",
         "null",
@@ -296,3 +299,70 @@ pub fn corpus_tokens(doc: &[u8], strings: bool) -> Vec<Vec<u8>> {
     out.dedup();
     out
 }
+
+// ------------------------------------------------------------------------------------------
+// string bodies: (escape head) + plain run of every length + every short B11 tail, so that every
+// malformed or escaped continuation is met at every offset of the 32-byte string scanners, both
+// before and after the first escape of the string (the scanners switch code paths there)
+
+pub const HEADS: &[&[u8]] = &[b"", b"\\t", b"\\\"q"];
+
+pub fn head_run_tail_count(heads: usize, max_run: u64, tail_len: u32) -> u64 {
+    heads as u64 * (max_run + 1) * seq_count(B11.len() as u64, tail_len)
+}
+
+/// idx-th body (without the surrounding quotes)
+pub fn head_run_tail_body(heads: usize, max_run: u64, tail_len: u32, idx: u64) -> Vec<u8> {
+    let k = B11.len() as u64;
+    let tails = seq_count(k, tail_len);
+    let per_head = (max_run + 1) * tails;
+    let h = (idx / per_head) as usize;
+    assert!(h < heads);
+    let rest = idx % per_head;
+    let run = rest / tails;
+    let mut seq = vec![];
+    nth_seq(k, tail_len, rest % tails, &mut seq);
+    let mut body = HEADS[h].to_vec();
+    body.extend((0..run).map(|i| b'a' + (i % 26) as u8));
+    for s in seq {
+        body.extend_from_slice(B11[s as usize]);
+    }
+    body
+}
+
+// ------------------------------------------------------------------------------------------
+// number shapes: every combination of integer width, fraction, exponent marker and sign, each
+// embedded so that at least 32 bytes of input follow it (the SIMD number skipper) and so that
+// fewer do (its scalar tail)
+
+pub fn number_shapes() -> Vec<String> {
+    let mut out = vec![];
+    for sign in ["", "-"] {
+        for int in ["0", "7", "12", "123", "1234567890123"] {
+            for frac in ["", ".5", ".25", ".0", ".000000000000000000001"] {
+                for exp in ["", "e3", "E3", "e+3", "E+3", "e-3", "E-3", "e12", "E+012"] {
+                    out.push(format!("{sign}{int}{frac}{exp}"));
+                }
+            }
+        }
+    }
+    out
+}
+
+pub fn number_shape_docs() -> Vec<String> {
+    let pad = "p".repeat(40);
+    let mut out = vec![];
+    for n in number_shapes() {
+        out.push(format!("[{n},\"{pad}\"]"));
+        out.push(format!("[{n} ,\"{pad}\"]"));
+        out.push(format!("{{\"k\":{n},\"p\":\"{pad}\"}}"));
+        out.push(format!("{{\"k\": {n}\n, \"p\":[{n},{n}  ], \"q\":\"{pad}\"}}"));
+        out.push(format!("[{n}]"));
+        out.push(format!("{{\"k\":{n}}}"));
+        out.push(format!("[[{n}],{{\"a\":{n} }},{n}]"));
+    }
+    out
+}
+
+/// containers whose emptiness is not syntactically minimal
+pub const SPACED_EMPTIES: &[&str] = &["[ ]", "{ }", "[\n]", "{\t}", "[  \r\n ]", "{ \n }"];
